@@ -351,7 +351,13 @@ def run_hcb(case, ctx):
 def run_comb(case, ctx):
     from tangelo.toolboxes.qubit_mappings import combinatorial
     rng, pr, s = case_rng(ctx.seed, "C03", "comb", case["i"])
-    n_orb = pr.choice([2, 3] if ctx.tier == "quick" else [2, 3, 4])
+    # register sizes alternate within one process (3 orbitals, then 4, then 2 ...): the encoding of one size must not depend on what was
+    # encoded before
+    n_orb = [3, 4, 2, 3][case["i"] % 4] if ctx.tier == "quick" else pr.choice([2, 3, 4])
+    if n_orb == 4 and ctx.tier == "quick":
+        # warm-up encoding on 3 orbitals in the same process, then the 4-orbital one
+        Hw = fock.random_hermitian_fermion_terms(rng, 3, restricted=True)
+        combinatorial(fop(Hw), 3, (2, 1))
     n = 2 * n_orb
     flavour = ["eightfold", "hermitian_only", "complex"][case["i"] % 3]
     H = fock.random_hermitian_fermion_terms(rng, n_orb, restricted=pr.random() < 0.6, eightfold=(flavour == "eightfold"), cplx=(flavour == "complex"))
@@ -359,7 +365,7 @@ def run_comb(case, ctx):
     for na in range(0, n_orb + 1):
         for nb in range(0, n_orb + 1):
             dim = math.comb(n_orb, na) * math.comb(n_orb, nb)
-            if dim < 2:
+            if dim < 2 or (n_orb == 4 and ctx.tier == "quick" and (na, nb) not in ((2, 1), (2, 2), (1, 2), (3, 1))):
                 continue
             idx = fock.sector_indices(n, n_alpha=na, n_beta=nb)
             ev_f = np.linalg.eigvalsh(Hm[np.ix_(idx, idx)])
